@@ -716,10 +716,46 @@ def check_scope11(ctx, impl, case, outs):
     v = r.as_array()
     _cmp(rep, 'scope11_follows_cited_method', v, u2fs(outs[0]), what=f'PMnvolEI ({et})')
     rep.clause('scope11_finite_nonneg', _finite_nonneg(v), f'{_fl(v)}')
+    # the route the inventory code takes: scope11_profile(edb). Different certification data sets of one engine (same
+    # name and UID, e.g. a revised data-bank issue) evaluated one after the other in this process must each get their own
+    # SCOPE11 indices — the cache of that function is deliberately NOT cleared here.
+    from AEIC.emissions.utils import scope11_profile
+
+    z = impl.tmv([0.0, 0.0, 0.0, 0.0])
+    nan = float('nan')
+    edb = impl.EDBEntry(engine='verif-shared', uid='SHARED', engine_type=et, BP_Ratio=float(case['bpr']), rated_thrust=100.0,
+                        fuel_flow=z, CO_EI_matrix=z, HC_EI_matrix=z, EI_NOx_matrix=z, SN_matrix=impl.tmv(case['sn']),
+                        nvPM_mass_matrix=z, nvPM_num_matrix=z, PR=impl.tmv([20.0] * 4), EImass_max=1.0, EImass_max_thrust=nan,
+                        EInum_max=1.0, EInum_max_thrust=nan) if _edb_fields_ok(impl) else None
+    if edb is not None:
+        pv = scope11_profile(edb).mass.as_array()
+        _cmp(rep, 'scope11_follows_cited_method', pv, u2fs(outs[0]), what=f'scope11_profile(edb).mass ({et}, shared engine/uid)')
     ctx.count('scope11:' + et)
     ctx.count('scope11:skipped_modes', sum(1 for s in case['sn'] if s in (-1.0, 0.0)))
     ctx.count('scope11:capped_modes', sum(1 for s in case['sn'] if s > 40.0))
     return rep
+
+
+_EDB_OK = None
+
+
+def _edb_fields_ok(impl) -> bool:
+    """EDBEntry constructor signature as this harness knows it (else the shared-uid probe is skipped, never a false alarm)"""
+    global _EDB_OK
+    if _EDB_OK is None:
+        import dataclasses
+
+        try:
+            names = {f.name for f in dataclasses.fields(impl.EDBEntry)}
+        except TypeError:
+            names = set()
+        need = {'engine', 'uid', 'engine_type', 'BP_Ratio', 'rated_thrust', 'fuel_flow', 'CO_EI_matrix', 'HC_EI_matrix',
+                'EI_NOx_matrix', 'SN_matrix', 'nvPM_mass_matrix', 'nvPM_num_matrix', 'PR', 'EImass_max', 'EImass_max_thrust',
+                'EInum_max', 'EInum_max_thrust'}
+        _EDB_OK = need == names or need <= names and all(
+            f.default is not dataclasses.MISSING or f.default_factory is not dataclasses.MISSING
+            for f in dataclasses.fields(impl.EDBEntry) if f.name not in need)
+    return _EDB_OK
 
 
 def _edb(impl, case, scale=1.0, uid='u'):
